@@ -74,10 +74,11 @@ type PureFn struct {
 }
 
 type Clause struct {
-	Kind string // requires ensures invariant decreases backedge iteration
-	Tags []string
-	E    Expr
-	Text string
+	Kind       string // requires ensures invariant decreases backedge iteration exit
+	Tags       []string
+	E          Expr
+	Text       string
+	HeaderOnly bool // exit clauses: only the exit taken from the loop header (the loop condition / first test)
 }
 
 type Target struct {
@@ -104,6 +105,7 @@ type LoopC struct {
 	Dec   []Clause
 	Back  []Clause
 	Iter  []Clause
+	Exit  []Clause
 	Bound int
 }
 
@@ -426,7 +428,7 @@ func parseExprString(s string) (e Expr, err error) {
 // ---------- file-level parser ----------
 
 var itemKeywords = map[string]bool{"uf": true, "pure": true, "func": true, "extern": true, "trusted": true, "lemma": true, "ghost": true}
-var clauseKeywords = map[string]bool{"uses": true, "spec": true, "cut": true, "assert": true, "arith": true, "requires": true, "ensures": true, "modifies": true, "decreases": true, "split": true,
+var clauseKeywords = map[string]bool{"exit": true, "uses": true, "spec": true, "cut": true, "assert": true, "arith": true, "requires": true, "ensures": true, "modifies": true, "decreases": true, "split": true,
 	"loop": true, "invariant": true, "backedge": true, "iteration": true, "bounded": true, "panics": true}
 
 // readContractLines returns the logical lines (keyword + text) of all //@ lines
@@ -623,7 +625,7 @@ func ParseContracts(paths []string) (*Contracts, error) {
 					return nil, fail(fmt.Errorf("pure %s redefined", name))
 				}
 				if l.kw == "uf" {
-					cs.UFs[name] = &PureFn{Name: name, Params: params, Body: body, Text: l.text}
+					cs.UFs[name] = &PureFn{Name: name, Params: params, Body: body, Result: strings.TrimSpace(l.text[rp+1 : eq]), Text: l.text}
 				} else {
 					cs.Pures[name] = &PureFn{Name: name, Params: params, Body: body, Text: l.text}
 				}
@@ -764,12 +766,18 @@ func ParseContracts(paths []string) (*Contracts, error) {
 					}
 					curLoop.Bound = n
 				default:
-					tags, rest := parseTags(l.text)
+					txt := l.text
+					headerOnly := false
+					if l.kw == "exit" && strings.HasPrefix(strings.TrimSpace(txt), "header ") {
+						headerOnly = true
+						txt = strings.TrimSpace(txt)[7:]
+					}
+					tags, rest := parseTags(txt)
 					e, err := parseExprString(rest)
 					if err != nil {
 						return nil, fail(err)
 					}
-					c := Clause{Kind: l.kw, Tags: tags, E: e, Text: rest}
+					c := Clause{Kind: l.kw, Tags: tags, E: e, Text: rest, HeaderOnly: headerOnly}
 					switch l.kw {
 					case "requires":
 						cur.Req = append(cur.Req, c)
@@ -783,7 +791,7 @@ func ParseContracts(paths []string) (*Contracts, error) {
 						} else {
 							cur.Dec = append(cur.Dec, c)
 						}
-					case "invariant", "backedge", "iteration":
+					case "invariant", "backedge", "iteration", "exit":
 						if curLoop == nil {
 							return nil, fail(fmt.Errorf("%s outside loop", l.kw))
 						}
@@ -794,6 +802,8 @@ func ParseContracts(paths []string) (*Contracts, error) {
 							curLoop.Back = append(curLoop.Back, c)
 						case "iteration":
 							curLoop.Iter = append(curLoop.Iter, c)
+						case "exit":
+							curLoop.Exit = append(curLoop.Exit, c)
 						}
 					}
 				}
